@@ -586,7 +586,11 @@ func (fv *FuncVerifier) binop(st *State, op token.Token, a, b Value, rt types.Ty
 			}
 			var cs []Term
 			// slices/maps/funcs compare only against nil: compare arr/ref leaf
+			_, isIface := xt.Underlying().(*types.Interface)
 			if _, isSl := xt.Underlying().(*types.Slice); isSl {
+				cs = append(cs, Eq(a.L[0], b.L[0]))
+			} else if isIface && ((a.L[0].S == "0" && a.L[1].S == "0") || (b.L[0].S == "0" && b.L[1].S == "0")) {
+				// comparison with the nil interface: nil iff the dynamic type is nil
 				cs = append(cs, Eq(a.L[0], b.L[0]))
 			} else {
 				for i := range a.L {
@@ -791,6 +795,7 @@ func (fv *FuncVerifier) indexAddr(st *State, x *ssa.IndexAddr) Value {
 			fv.addOb(st, "bounds", fmt.Sprintf("bounds[%s]", fv.srcText(x)), inb, "index out of range", x.Pos())
 		}
 		st.assume(inb)
+		fv.enc.registerRefLeaves("E_"+typeKey(u.Elem()), u.Elem(), 2)
 		return Value{Typ: x.Type(), L: []Term{I(0)}, Place: &Place{Kind: PElem, Typ: u.Elem(), Prefix: "E_" + typeKey(u.Elem()), Arr: base.L[0], Off: base.L[1], Idx: idx}}
 	case *types.Pointer:
 		at := u.Elem().Underlying().(*types.Array)
@@ -803,6 +808,7 @@ func (fv *FuncVerifier) indexAddr(st *State, x *ssa.IndexAddr) Value {
 			panic(unsupported("index of local array cell"))
 		}
 		ref := base.L[0]
+		fv.enc.registerRefLeaves("E_"+typeKey(at.Elem()), at.Elem(), 2)
 		return Value{Typ: x.Type(), L: []Term{I(0)}, Place: &Place{Kind: PElem, Typ: at.Elem(), Prefix: "E_" + typeKey(at.Elem()), Arr: ref, Off: I(0), Idx: idx}}
 	}
 	panic(unsupported("IndexAddr on " + x.X.Type().String()))
